@@ -66,8 +66,16 @@ Proof.
   assert (E : forall a, bfind a (i_props i) = bfind a (i_props i')) by (intros a; now apply bfind_perm).
   assert (F : find (fun a => match bfind a (i_props i) with Some _ => true | None => false end) order
             = find (fun a => match bfind a (i_props i') with Some _ => true | None => false end) order).
-  { induction order as [|a l IH]; cbn; [reflexivity|]. rewrite E. destruct (bfind a (i_props i')); [reflexivity|exact IH]. }
-  rewrite F. destruct (find _ order) as [a|]; [rewrite E|]; reflexivity.
+  { induction order as [|a l IH]; cbn [find]; [reflexivity|]. cbv beta. rewrite E. destruct (bfind a (i_props i')); [reflexivity|exact IH]. }
+  assert (G : match find (fun a => match bfind a (i_props i) with Some _ => true | None => false end) order with
+              | Some a => match bfind a (i_props i) with Some v => v | None => pi_default pi end
+              | None => pi_default pi end
+            = match find (fun a => match bfind a (i_props i') with Some _ => true | None => false end) order with
+              | Some a => match bfind a (i_props i') with Some v => v | None => pi_default pi end
+              | None => pi_default pi end).
+  { rewrite F. destruct (find (fun a => match bfind a (i_props i') with Some _ => true | None => false end) order) as [a|];
+      [rewrite E|]; reflexivity. }
+  rewrite G. reflexivity.
 Qed.
 
 (* C08 (column level): an instance that carries the canonical property keeps its own value ... *)
@@ -81,7 +89,7 @@ Theorem prop_value_alias p canon pi i a v :
   bytes_eqb canon NAME = false -> pi_migration pi = None -> bfind canon (i_props i) = None ->
   bfind a (i_props i) = Some v ->
   prop_value p canon pi [a] i = v.
-Proof. intros Hn Hm Hc Ha. unfold prop_value. rewrite Hn, Hc, Hm. cbn [find]. now rewrite Ha. Qed.
+Proof. intros Hn Hm Hc Ha. unfold prop_value. rewrite Hn, Hc, Hm. cbn [find]. cbv beta. rewrite Ha. rewrite Ha. reflexivity. Qed.
 
 (* ... and one that carries no spelling of it gets the column default, never a neighbour's value *)
 Theorem prop_value_default p canon pi order i :
@@ -91,7 +99,7 @@ Theorem prop_value_default p canon pi order i :
 Proof.
   intros Hn Hm Hc Ha. unfold prop_value. rewrite Hn, Hc, Hm.
   assert (F : find (fun a => match bfind a (i_props i) with Some _ => true | None => false end) order = None).
-  { induction order as [|a l IH]; cbn; [reflexivity|]. rewrite (Ha a) by now left. apply IH. intros b Hb. apply Ha. now right. }
+  { induction order as [|a l IH]; cbn [find]; [reflexivity|]. cbv beta. rewrite (Ha a) by now left. apply IH. intros b Hb. apply Ha. now right. }
   now rewrite F.
 Qed.
 
@@ -127,15 +135,19 @@ Definition colour_of (d : res cdom) : list (bytes * option value) :=
 
 (* [Part{BrickColor}, Part{Color3uint8}] serializes in both sibling orders (and each alone), and each instance
    reads back its own colour (the legacy one migrated) *)
+Definition enc_part (d : cdom) (roots : list N) : res bytes := encode_file db_part ep_part None d roots.
+Definition is_ok {A} (r : res A) : bool := match r with Ok _ => true | _ => false end.
+Definition roundtrip_colours (d : cdom) (roots : list N) : list (bytes * option value) :=
+  match enc_part d roots with Ok b => colour_of (decode_file db_part dp_part b) | _ => [] end.
+
 Theorem c08_sample_both_orders :
-  let d1 := [legacy_part 1; alias_part 2] in
-  let d2 := [alias_part 1; legacy_part 2] in
-  (exists b, encode_file db_part ep_part None [legacy_part 1] [1] = Ok b) /\
-  (exists b, encode_file db_part ep_part None [alias_part 1] [1] = Ok b) /\
-  (exists b, encode_file db_part ep_part None d1 [1; 2] = Ok b /\
-             colour_of (decode_file db_part dp_part b)
-             = [(bstr "L", Some (VColor3uint8 163 162 165)); (bstr "A", Some (VColor3uint8 1 2 3))]) /\
-  (exists b, encode_file db_part ep_part None d2 [1; 2] = Ok b /\
-             colour_of (decode_file db_part dp_part b)
-             = [(bstr "A", Some (VColor3uint8 1 2 3)); (bstr "L", Some (VColor3uint8 163 162 165))]).
-Proof. cbv zeta. repeat split; eexists; try split; vm_compute; reflexivity. Qed.
+  is_ok (enc_part [legacy_part 1] [1]) = true /\
+  is_ok (enc_part [alias_part 1] [1]) = true /\
+  roundtrip_colours [legacy_part 1; alias_part 2] [1; 2]
+    = [(bstr "L", Some (VColor3uint8 163 162 165)); (bstr "A", Some (VColor3uint8 1 2 3))] /\
+  roundtrip_colours [alias_part 1; legacy_part 2] [1; 2]
+    = [(bstr "A", Some (VColor3uint8 1 2 3)); (bstr "L", Some (VColor3uint8 163 162 165))].
+Proof.
+  split; [vm_compute; reflexivity|]. split; [vm_compute; reflexivity|].
+  split; vm_compute; reflexivity.
+Qed.
